@@ -308,7 +308,7 @@ def gen_inputs(tier, rng):
     # ---- public entry point: Imaging + Rectangular mappers (mapping and w-tilde formalisms)
     for i in range(60 if big else 6):
         yield {"op": "real", "seed": rng.randrange(10 ** 9), "w_tilde": i % 2 == 0,
-               "pos": rng.random() < 0.75, "pinit": rng.random() < 0.6, "force": rng.random() < 0.5, "two": i % 3 == 0, "mockreg": i % 4 < 2}
+               "pos": rng.random() < 0.75, "pinit": rng.random() < 0.6, "force": rng.random() < 0.5, "two": i % 3 == 0, "mockreg": i % 4 < 2 or i % 3 == 0}
 
 def rand_ranges(rng, n):
     out = []; lo = 0
@@ -375,6 +375,12 @@ def band_row(kind, why=""):
     STATS["band"] += 1
     return {"coq": None, "out": "skipped: a decision lies within 1e-6 of its threshold " + why, "py_ok": None, "kind": "band:" + kind,
             "nontrivial": False}
+
+def ill_conditioned(A):
+    """the 1e-9 comparison of a double solve with the exact one is only meaningful for cond(A) << 1e7 (singular: handled by the caller)"""
+    if not A: return False
+    c = np.linalg.cond(np.array([[float(x) for x in r] for r in A]))
+    return bool(np.isfinite(c) and c > 1e6)
 
 def nontrivial_system(A, b):
     u = gauss(A, b)
@@ -476,6 +482,7 @@ def inversion_rows(aa, inv, objs_desc, st, kind, nontrivial=True):
                     forced |= {j + off for j in range(o["params"]) if any(o["Mq"][r][j] != 0 for r in st["source_zero"])}
             off += o["params"]
     kept = [i for i in range(n) if i not in forced]
+    if ill_conditioned([[A[i][j] for j in kept] for i in kept]): return band_row(kind, "(ill-conditioned system: cond > 1e6)")
     if st["pos"]:
         mg = margin_pos_only([[A[i][j] for j in kept] for i in kept], [b[i] for i in kept], st["pinit"])
         if mg is None or mg < BAND: return band_row(kind)
